@@ -1,6 +1,6 @@
 """Registration of the claimed properties (see DESIGN.md section 4)."""
 
-from .registry import register, SeqPart, SeqEnumPart, ConcPart, ConcPairsPart, ConcCrashPart, SingleSweepPart, SingleRandomPart
+from .registry import register, SeqPart, SeqEnumPart, SeqIPart, ConcPart, ConcPairsPart, ConcCrashPart, SingleSweepPart, SingleRandomPart
 
 def _raw_hooks(prog):
     """Rejected calls (invalid-argument grammar) may appear in any history: "calls made earlier on the
@@ -29,7 +29,7 @@ register("C02", "exploration",
          "history that is linearizable except for a reported digest map belongs to C02 (the map must not depend on "
          "what another thread did)",
          COMMON_ASSUME + ["accepted spellings = strings the documented normalisation rule maps to a supported name"],
-         30, 420,
+         45, 480,
          [SeqPart("C02", focus=["algo-arg", "op:hexdigest"], weight=2.0, hooks=_raw_hooks),
           ConcPart("C02", "objalgo", name="conc-algo", weight=1.0)])
 
@@ -37,21 +37,21 @@ register("C03", "exploration",
          SEQ_RULE + "; focus = a store_object/tag_object on an already bound pid (rejected re-bind)",
          COMMON_ASSUME + ["either documented already-exists class (HashStoreRefsAlreadyExists / "
                           "PidRefsAlreadyExistsError) counts as the rejection"],
-         30, 420,
+         45, 480,
          [SeqEnumPart("C03", "obj", "seq-enum", focus=["rebind-rejected"]),
           SeqPart("C03", focus=["rebind-rejected"], weight=2.5, hooks=_raw_hooks),
           ConcPart("C03", "obj", name="conc-obj", weight=1.0, mp="mixed")])
 
 register("C04", "exploration",
          SEQ_RULE + "; focus = a successful delete_object or a delete_if_invalid_object in a history with shared content",
-         COMMON_ASSUME, 30, 420,
+         COMMON_ASSUME, 45, 480,
          [SeqEnumPart("C04", "obj", "seq-enum", focus=["delete-ok", "div"]),
           SeqPart("C04", focus=["delete-ok", "div"], weight=2.5),
           ConcPart("C04", "obj", name="conc-obj", weight=1.0, mp="mixed")])
 
 register("C05", "exploration",
          SEQ_RULE + "; focus = any reference-changing call (tag/delete/store with pid)",
-         COMMON_ASSUME, 30, 420,
+         COMMON_ASSUME, 45, 480,
          [SeqEnumPart("C05", "obj", "seq-enum"), SeqPart("C05", focus=["op:tag", "delete-ok", "op:store"], weight=2.5, hooks=_raw_hooks),
           ConcPart("C05", "obj", name="conc-obj", weight=1.0, mp="mixed")])
 
@@ -64,7 +64,7 @@ register("C06", "exploration",
 
 register("C11", "exploration",
          SEQ_RULE + "; focus = a metadata call",
-         COMMON_ASSUME, 30, 420,
+         COMMON_ASSUME, 45, 480,
          [SeqEnumPart("C11", "meta", "seq-enum", focus=["meta"]), SeqPart("C11", focus=["meta"], weight=2.5, hooks=_raw_hooks),
           ConcPart("C11", "metax", name="conc-collide", weight=1.0)])
 
@@ -78,13 +78,13 @@ register("C16", "exploration",
          "mode (error and roll-back paths of the multiprocessing twins)",
          COMMON_ASSUME + ["contention among real OS-scheduled forked processes is outside the simulator; "
                           "processes are simulated tasks with fork-views of the store"],
-         30, 420,
-         [SeqPart("C16", mp=True, name="seq-mp", focus=["op:store", "op:tag", "delete-ok", "meta"]),
-          ConcPart("C16", "obj", mp=True, name="conc-mp-obj"),
-          ConcPart("C16", "meta", mp=True, name="conc-mp-meta", weight=0.6),
+         60, 600,
+         [SeqPart("C16", mp=True, name="seq-mp", focus=["op:store", "op:tag", "delete-ok", "meta"], weight=0.7),
+          ConcPart("C16", "obj", mp=True, name="conc-mp-obj", weight=1.6),
+          ConcPart("C16", "meta", mp=True, name="conc-mp-meta", weight=0.8),
           SingleSweepPart("C16", "FAULT", "fault-sweep-mp", errnos=("EIO",), modes=(False, True), weight=0.4,
                           knob_sets=[dict(mp=True)]),
-          SingleRandomPart("C16", "FAULT", "fault-random-mp", weight=0.4, mp=True)])
+          SingleRandomPart("C16", "FAULT", "fault-random-mp", weight=0.3, mp=True)])
 
 CONC_RULE = ConcPart.rule
 
@@ -92,13 +92,13 @@ register("C07", "exploration", CONC_RULE,
          COMMON_ASSUME + ["granularity = file-system call and lock operation (what the property names); "
                           "StoreObjectForPidAlreadyInProgress accepted when a concurrent store_object or "
                           "delete_object owns the pid; <= 4 tasks, <= 8 calls per scenario"],
-         40, 480,
+         60, 600,
          [ConcPairsPart("C07", "obj", "conc-pairs", weight=1.0), ConcPart("C07", "obj", weight=2.0, mp="mixed"),
           ConcPairsPart("C07", "obj", "conc-triples", per_shape=(0, 6), triples=True, weight=0.01)])
 
 register("C12", "exploration", CONC_RULE,
          COMMON_ASSUME + ["a racing reader may report not-found as ValueError or FileNotFoundError"],
-         40, 480,
+         60, 600,
          [ConcPairsPart("C12", "meta", "conc-pairs", weight=1.0), ConcPart("C12", "meta", weight=2.0, mp="mixed"),
           ConcPairsPart("C12", "meta", "conc-triples", per_shape=(0, 8), triples=True, weight=0.01),
           ConcPart("C12", "metax", name="conc-collide", weight=0.5)])
@@ -111,10 +111,11 @@ register("C08", "exploration",
          "site of every single call, and conc-fault-* inject one I/O error somewhere into a multi-task run (only the "
          "liveness oracles apply there)",
          COMMON_ASSUME + ["blocking is simulated: a task that would block is parked by the scheduler, so slow != blocked"],
-         40, 480,
+         60, 600,
          [ConcPairsPart("C08", "obj", "conc-pairs-obj", per_shape=(2, 20), weight=0.8),
           ConcPairsPart("C08", "meta", "conc-pairs-meta", per_shape=(2, 20), weight=0.5),
           ConcPart("C08", "obj", name="conc-obj"), ConcPart("C08", "meta", name="conc-meta", weight=0.7),
+          ConcPart("C08", "obj", name="conc-after-crash", crash_setup=True, weight=0.8),
           ConcPart("C08", "obj", name="conc-fault-obj", fault=True, weight=0.8),
           ConcPart("C08", "meta", name="conc-fault-meta", fault=True, weight=0.4),
           SingleSweepPart("C08", "FAULT", "fault-sweep", errnos=("EIO",), weight=1.0),
@@ -138,7 +139,8 @@ register("C13", "fault_enumeration",
           SingleRandomPart("C13", "FAULT", "fault-random", weight=2.0, mp="mixed"),
           SingleSweepPart("C13", "FAULT", "fault-sweep-mp", errnos=("EIO",), modes=(False, True), weight=0.4,
                           knob_sets=[dict(mp=True)]),
-          SingleRandomPart("C13", "FAULT", "fault-random-ext", weight=0.5, kinds="ext")])
+          SingleRandomPart("C13", "FAULT", "fault-random-ext", weight=0.5, kinds="ext"),
+          SeqIPart("C13", weight=1.2)])
 
 register("C10", "fault_enumeration",
          "three parts: complete sweep of the (start state x call) menu with process death before every mutating "
@@ -159,7 +161,8 @@ register("C10", "fault_enumeration",
           SingleSweepPart("C10", "CRASH", "crash-sweep-buffered", weight=0.5, only_tiers=("thorough",),
                           knob_sets=[dict(write_through=False), dict(write_through=True, csize=(9000, 20000))]),
           SingleRandomPart("C10", "CRASH", "crash-random", weight=1.5, second=True, mp="mixed"),
-          ConcCrashPart("C10", "crash-conc", weight=1.0)])
+          ConcCrashPart("C10", "crash-conc", weight=1.0),
+          SeqIPart("C10", weight=1.2)])
 
 register("C09", "fault_enumeration",
          "three parts: (atom-sweep) every (start state, call, knob set) of the menu executed once with the "
@@ -182,7 +185,8 @@ register("C09", "fault_enumeration",
                                      dict(write_through=False, csize=(9000, 20000), blksize=512)]),
           SingleRandomPart("C09", "ATOM", "atom-random", weight=1.0),
           ConcPart("C09", "obj", name="atom-conc-obj", atom=True, weight=1.0),
-          ConcPart("C09", "meta", name="atom-conc-meta", atom=True, weight=0.7)])
+          ConcPart("C09", "meta", name="atom-conc-meta", atom=True, weight=0.7),
+          SeqIPart("C09", weight=0.8)])
 
 
 def _c17_hooks(prog):
